@@ -105,7 +105,9 @@ where
                     .periodic_images(position, 3, false)
                     .map(|p| self.shape.transform(&p))
                 {
-                    sum += shape1.energy(&shape2);
+                    // Each of the pairs with a periodic image is found from both of the shapes,
+                    // while the pairs within the cell above are only found the once.
+                    sum += 0.5 * shape1.energy(&shape2);
                 }
             }
         }
